@@ -182,28 +182,31 @@ def httpReadSome (want : Nat) (st : HttpSt) : Except Err (Bytes × HttpSt) :=
 def keepAliveToken : Bytes := [107, 101, 101, 112, 45, 97, 108, 105, 118, 101]
 def httpConnection : Bytes := [72, 84, 84, 80, 95, 67, 79, 78, 78, 69, 67, 84, 73, 79, 78]
 
-/-- one HTTP connection.  `hints`: per answered request, whether the response went out with a known
-length (`Content-Length`), which the write path decides; only consulted for HTTP/1.0 keep-alive. -/
+/-- `reset_all()`: the environment every request starts with -/
+def httpEnv0 (cfg : HttpCfg) : Env :=
+  Env.empty.addAll
+    [(bs Gen.env_SERVER_SOFTWARE, cfg.software), (bs Gen.env_SERVER_NAME, cfg.serverName),
+     (bs Gen.env_SERVER_PORT, cfg.port), (bs Gen.env_GATEWAY_INTERFACE, bs Gen.envGateway)]
+
+/-- `format_output`: keep-alive after an answered request.  `known`: the response went out with a
+known length (`Content-Length`), which the write path decides; only matters for HTTP/1.0. -/
+def httpKeep (h : Head) (is11 : Bool) (known : Bool) : Bool :=
+  let accepts := match h.env.get? httpConnection with
+    | some v => ciEq v keepAliveToken
+    | none => false
+  accepts && (known || is11)
+
+def httpStreamFuel (st : HttpSt) : Nat := st.rest.length + (st.segs.map List.length).sum + st.segs.length + 2
+
+/-- one HTTP connection.  `hints`: per answered request, whether the response had a known length. -/
 def httpConn (lim : Limits) (cfg : HttpCfg) : Nat → List Bool → HttpSt → List Outcome
   | 0, _, _ => [.crash "out of fuel"]
   | fuel + 1, hints, st =>
-    let env0 := Env.empty.addAll
-      [(bs Gen.env_SERVER_SOFTWARE, cfg.software), (bs Gen.env_SERVER_NAME, cfg.serverName),
-       (bs Gen.env_SERVER_PORT, cfg.port), (bs Gen.env_GATEWAY_INTERFACE, bs Gen.envGateway)]
-    match httpHeaders cfg (streamFuel st) 0 { env := env0 } st with
+    match httpHeaders cfg (httpStreamFuel st) 0 { env := httpEnv0 cfg } st with
     | (.done o, _) => [o]
     | (.head h is11, st) =>
       let (o, st) := runRequest lim httpReadSome h st
-      match o with
-      | .app .. =>
-        let accepts := match h.env.get? httpConnection with
-          | some v => ciEq v keepAliveToken
-          | none => false
-        let known := hints.headD true
-        if accepts && (known || is11) then o :: httpConn lim cfg fuel hints.tail st else [o]
-      | _ => [o]
-where
-  streamFuel (st : HttpSt) : Nat := st.rest.length + (st.segs.map List.length).sum + st.segs.length + 2
+      if isApp o && httpKeep h is11 (hints.headD true) then o :: httpConn lim cfg fuel hints.tail st else [o]
 
 def httpRun (lim : Limits) (cfg : HttpCfg) (hints : List Bool) (segs : Segs) : List Outcome :=
   httpConn lim cfg ((segs.map List.length).sum + 2) hints { segs := segs }
